@@ -817,6 +817,50 @@ def r6(ctx):
     sub.flush('no module/class-level state is written on the read/write/identify paths')
 
 
+def r7(ctx):
+    """the dispatch layer (Region.write, Regions.write, RegionsRegistry.write) only hands the destination on: it neither
+    creates nor modifies it. A clean-up that removes a half-written file is accepted only where the path was established
+    absent with os.path.lexists before the writer ran (os.path.exists is false for a dangling symlink, which a clean-up
+    would then delete)."""
+    m = ctx.model
+    reg = m.cls('RegionsRegistry')
+    entries = [m.method(reg, 'write')]
+    for cname in ('Region', 'Regions'):
+        ci = m.cls(cname)
+        f = m.method(ci, 'write') if ci is not None else None
+        if f is not None:
+            entries.append(f)
+    ctx.need(len(entries) == 3 and all(entries), 'write dispatch', 'Region.write / Regions.write / RegionsRegistry.write not found')
+    for fi in entries:
+        fn = fi.node
+        params = [a.arg for a in fn.args.args if a.arg not in ('self', 'cls')]
+        construct = fi.qualname.split(':')[1]
+        pm = parents(fn)
+        bad = None
+        for pathparam in params:
+            for c in _destination_modifiers(fn, pathparam) + [x[0] for x in _direct_creates(fn) if any(
+                    isinstance(a, ast.Name) and a.id == pathparam for a in ast.walk(x[3]) if x[3] is not None)]:
+                # accepted: under `if not <flag>` with <flag> = os.path.lexists(<path>) assigned in this function
+                flags = {t.id for st in ast.walk(fn) if isinstance(st, ast.Assign) and isinstance(st.value, ast.Call)
+                         and (call_name(st.value) or '').endswith('lexists') for t in st.targets if isinstance(t, ast.Name)}
+                guarded = False
+                cur = c
+                while cur in pm:
+                    cur = pm[cur]
+                    if isinstance(cur, ast.If) and isinstance(cur.test, ast.UnaryOp) and isinstance(cur.test.op, ast.Not) \
+                            and isinstance(cur.test.operand, ast.Name) and cur.test.operand.id in flags:
+                        guarded = True
+                if not guarded:
+                    bad = c
+        if bad is not None:
+            ctx.bad(construct, 'dispatch-touches-destination',
+                    f'`{norm(bad)[:80]}` in {construct} changes the destination itself: a failing write (no-clobber OSError, bad '
+                    'option, unserialisable region) must leave it as it was — absent if absent, and a dangling symlink is '
+                    '"present" (os.path.lexists), not something to clean up', fi.loc(bad))
+        else:
+            ctx.ok(construct, 'the destination is only handed on to the format writer')
+
+
 RULES = [
     RuleDef('R1', 'lexists guard dominates every destination-creating call', r1, 3),
     RuleDef('R2', 'serialisation dominates open; no repo code after open', r2, 3),
@@ -826,5 +870,6 @@ RULES = [
     RuleDef('R4c', 'FITS table is written under the extension name the reader looks for', r4c, 1),
     RuleDef('R5', 'registry raises IORegistryError for unknown/unidentified formats; identifier selection', r5, 7),
     RuleDef('R5b', 'format inference is asked with (path, class, method) in the identifiers\' roles', r5b, 3),
+    RuleDef('R7', 'dispatch layer never creates, removes or renames the destination', r7, 3),
     RuleDef('R6', 'identification and I/O keep no state between calls (C13.R2 on registry/io)', r6, 1),
 ]
